@@ -133,6 +133,8 @@ func init() {
 		[]Stage{bfs("lsm", 5, 40, prm("oracle", "c13", "nvk", 1, "keys", 1)), bfs("lsm", 5, 40, prm("oracle", "c13", "nvk", 2, "keys", 1)),
 			// seeds with versions on both sides of the watermark (the version budget must count only versions at or below it)
 			bfs("lsm", 3, 40, prm("oracle", "c13", "nvk", 2, "keys", 1), seq("Sa Sa T"), seq("Sa Sa Sa T Sa"), seq("Sa F Sa F T"), seq("Sa Ea Sa T Sa")),
+			// normal mode: the watermark is the read watermark, which must not pass a read transaction that is still open
+			bfs("lsm", 5, 30, prm("oracle", "c13", "mode", "normal", "nvk", 1, "keys", 1, "l0_tables", 1, "ops", "Sa Da F C0 O X")),
 			// the watermark a compaction uses must be the real one even while a value-log GC rewrite is in flight
 			sched("c15gc", 2, 16, 30, prm("variant", "snapshot"))},
 		[]Stage{bfs("lsm", 6, 300, prm("oracle", "c13", "nvk", 1, "keys", 1)), bfs("lsm", 6, 300, prm("oracle", "c13", "nvk", 2, "keys", 1)), bfs("lsm", 5, 300, prm("oracle", "c13", "nvk", 1000, "keys", 2)),
@@ -296,6 +298,8 @@ func init() {
 	planTable["C01"] = lsmPlan("Normal-mode histories on the real DB: writes (inline and value-log values), deletes, flushes, every picker compaction, table ageing, value-log GC, with up to two read-only snapshot transactions opened at arbitrary points and kept open; after EVERY transition every open snapshot re-reads every key by Get+ValueCopy, a prefetching forward iterator and a non-prefetching reverse iterator and must still see exactly the newest write at or below its read timestamp (a fresh transaction must see the latest state). Option combinations: the same search under snappy + encryption + 3 levels and in-memory + zstd + larger tables (thorough: more). Concurrent part: readers, committers, a flusher and a compaction interleaved under the controlled scheduler (see C03 scenarios).",
 		stateRule,
 		[]Stage{sched("c01flush", 2, 16, 30, prm("variant", "flush")), sched("c01flush", 2, 16, 30, prm("variant", "compact")), bfs("lsm", 5, 60, prm("oracle", "c12", "mode", "normal", "keys", 2, "ops", "Sa Sb Da F C0 C1 O X")),
+			// a level-0 trigger of one table, starting with a snapshot open below an overwrite / a delete: later transactions begin (moving the newest read timestamp), the old version is flushed and compacted while the snapshot still needs it
+			bfs("lsm", 4, 40, prm("oracle", "c12", "mode", "normal", "keys", 1, "l0_tables", 1, "ops", "Sa Da F C0 O X"), seq("Sa O Sa"), seq("Sa O Da")),
 			// option combinations: snappy + encryption + 3 levels, in-memory + zstd, big memtable / table sizes
 			bfs("lsm", 4, 30, prm("oracle", "c12", "mode", "normal", "keys", 2, "big", true, "compression", "snappy", "encrypt", true, "max_levels", 3, "ops", "Sa Bb Da F C0 O X")),
 			bfs("lsm", 4, 30, prm("oracle", "c12", "mode", "normal", "keys", 2, "inmemory", true, "compression", "zstd", "table_size", 4096, "base_level_size", 8192, "ops", "Sa Sb Da F C0 O X")), bfs("lsm", 4, 40, prm("oracle", "c12", "mode", "normal", "keys", 2, "big", true, "gc", true, "vlog_max_entries", 1, "ops", "Ba Bb Sa Da F C0 G O X"), seq("Ba Bb F"), seq("Ba Ba F C0"))},
